@@ -148,6 +148,9 @@ func newStore(name, path string, option StoreOption) (s Store, err error) {
 				kvLogger.Error("close store err when create store fail",
 					logger.String("store", path), logger.Error(err), logger.Error(err2))
 			}
+			// NOTE: store isn't recovered completely, cannot know which files are obsolete,
+			// must keep all files(include the manifest file which CURRENT names).
+			return
 		}
 
 		// finally, try delete obsolete files
